@@ -4,10 +4,17 @@ defaults, a field validator, schema validators at three depths, a feature-flagge
 sub-configuration, a list of configurations whose schema has a validator): C11_ReturnImplies,
 C11_CollectIffRaise, C11_ItemsHeld, C11_ItemsInserted.  The conformance step registers logging validators and
 compares the set of (configuration path, validator) invocations of every load / validate."""
-from . import cfgmachine
+from . import cfgfamily, cfgmachine
 
 
 def run(tier, seed):
-    return cfgmachine.run_machine(
-        "C11", ["C11_ReturnImplies", "C11_CollectIffRaise", "C11_ItemsHeld"], ["C11_ItemsInserted"], tier, seed, schema="SchemaV", focus="C11"
+    out = cfgmachine.run_machine(
+        "C11", ["C11_ReturnImplies", "C11_CollectIffRaise", "C11_ItemsHeld"], ["C11_ItemsInserted"], tier, seed, schema="SchemaV", focus="C11",
+        # (every operation followed by validate / load: two levels of the graph are replayed)
+        export_depth=2
     )
+    # and on the generated schema family: every operation followed by validate() / validate(collect_errors=True)
+    fam = cfgfamily.run_family(
+        "C11", ["C11_ReturnImplies", "C11_CollectIffRaise", "C11_ItemsHeld"], ["C11_ItemsInserted"], tier, seed, focus="C11", then="validate"
+    )
+    return cfgmachine.merge(out, fam)
